@@ -47,7 +47,10 @@ RULE = ('Every set partition of n observations into condition labels x label nam
         'of method configurations (first call as single dataset / one-element list / same object '
         'twice in a list; movies likewise) and chains of all configurations, each result judged '
         'against the originally supplied data and the inputs required bit-identical after every '
-        'call; the structures re-run with measurements x1e-5 / x1e4 and precisions x1e-8 / x1e6 '
+        'call; calc_rdm_movie on LISTS of 1-2 temporal datasets x precision None / shared / per-dataset '
+        'list / dict keyed by position x every binning x priors x a time descriptor selected by name, '
+        'and unbalanced=True movies (frame == calc_rdm_unbalanced of that time point); '
+        'the structures re-run with measurements x1e-5 / x1e4 and precisions x1e-8 / x1e6 '
         '(relative tolerance); condition labels 100000+k, 1696300000.0+0.5k and strings that are '
         'prefixes of / differ by a blank from each other, as list and ndarray, through single, '
         'list, stacked and movie input.  After EVERY call all caller-owned arguments (dataset '
@@ -71,6 +74,10 @@ ASSUMPTIONS = [
     'the same objects no longer equal the formula on the supplied data); checked after every call',
     'scaled data: a correct evaluation may err by a small multiple of 1e-16 times the magnitude of '
     'the terms it sums (ref.magnitude); allowed 1e-9*|value| + 1e-12*magnitude',
+    'unbalanced=True movies: only the stacking is judged (each frame == calc_rdm_unbalanced of the data '
+    'at that time point); the unbalanced estimator itself belongs to another property',
+    'a dict of precisions is only passed where it works as a per-dataset container (keyed by the '
+    'position in the list); _check_noise\'s dict branch is reachable only through crossnobis (C02)',
     'lists of datasets without condition descriptor are only generated with identical obs '
     'descriptors or with all-distinct labels (then the returned labels define the alignment)',
 ]
@@ -94,6 +101,9 @@ BOUNDS = {
                         'all 16 method configurations, single/one-element list/list of two/movie',
               'labels': '100000+k, 1696300000.0+0.5k, prefix strings; list and ndarray; every partition n<=4, '
                         'every pair of partitions n<=3, every row order n<=4 (stack), movies n_time 2',
+              'movie_lists': '1-2 datasets x n_time 1..3 x every binning x every partition n<=3 x 10 method '
+                             'configurations (per-dataset precision as list and as dict); unbalanced movies '
+                             'n_time 1..2, also through a one-element list',
               'time_axes': '8 axes x 3 storage orders x every binning of n_time 1..3 x 7 label structures x 4 '
                            'methods (row-per-observation movies on a quarter)',
               'sequences_on_one_object': 'n_obs 2..3, n_channel 2..3, float and int, descriptor and None: all '
